@@ -9,131 +9,9 @@ use std::collections::BTreeMap;
 use std::sync::Mutex;
 use vmodel::ast::*;
 use vmodel::enumerate::*;
+pub use vmodel::gen::{chain_entries, leaf_entries, ref_entries, Leaf, Refk, LEAVES, NAMES, REFS};
 use vmodel::par::par_for;
 use vmodel::{Reporter, Tier};
-
-#[derive(Clone, Copy, Debug, PartialEq, Eq)]
-pub enum Leaf {
-    Text,
-    Interp,
-    Comp,
-    Range,
-    Plural,
-    Num,
-    CountVarOnly,
-}
-pub const LEAVES: [Leaf; 7] = [Leaf::Text, Leaf::Interp, Leaf::Comp, Leaf::Range, Leaf::Plural, Leaf::Num, Leaf::CountVarOnly];
-
-#[derive(Clone, Copy, Debug, PartialEq, Eq)]
-pub enum Refk {
-    Whole,
-    Mid,
-    InComp,
-    ArgStr,
-    ArgNum,
-    ArgBool,
-    ArgRename,
-    ArgFk,
-    CountLit,
-    CountLit0,
-    CountVar,
-    Unknown,
-    InRange,
-    InPlural,
-    Two,
-}
-pub const REFS: [Refk; 15] = [
-    Refk::Whole,
-    Refk::Mid,
-    Refk::InComp,
-    Refk::ArgStr,
-    Refk::ArgNum,
-    Refk::ArgBool,
-    Refk::ArgRename,
-    Refk::ArgFk,
-    Refk::CountLit,
-    Refk::CountLit0,
-    Refk::CountVar,
-    Refk::Unknown,
-    Refk::InRange,
-    Refk::InPlural,
-    Refk::Two,
-];
-
-fn rbranch(v: Val, counts: Vec<CountSpec>) -> Branch {
-    Branch { value: Box::new(v), counts, map_form: false, value_first: false }
-}
-
-pub fn leaf_entries(name: &str, leaf: Leaf, tag: &str) -> Vec<(String, Val)> {
-    match leaf {
-        Leaf::Text => vec![(name.into(), st(&format!("[{tag}]")))],
-        Leaf::Interp => vec![(name.into(), s(vec![text(&format!("[{tag}]")), var("x"), text("|"), var_ws("x", 1, 1)]))],
-        Leaf::Comp => vec![(name.into(), s(vec![comp("b", vec![text(&format!("[{tag}]")), var("x")])]))],
-        Leaf::Range => vec![(
-            name.into(),
-            Val::Range(RangeDecl {
-                ty: None,
-                branches: vec![
-                    rbranch(s(vec![text(&format!("[{tag}.0]")), var("count"), var("x")]), vec![CountSpec::Int(0)]),
-                    rbranch(s(vec![text(&format!("[{tag}.1]")), var("x")]), vec![CountSpec::Str("1..=3".into())]),
-                    rbranch(s(vec![text(&format!("[{tag}.fb]")), var("count")]), vec![]),
-                ],
-            }),
-        )],
-        Leaf::Plural => vec![
-            (format!("{name}_one"), s(vec![text(&format!("[{tag}.one]")), var("count"), var("x")])),
-            (format!("{name}_other"), s(vec![text(&format!("[{tag}.other]")), var("count")])),
-        ],
-        Leaf::Num => vec![(name.into(), Val::UInt(7))],
-        Leaf::CountVarOnly => vec![(name.into(), s(vec![text(&format!("[{tag}]")), var("count"), var("x")]))],
-    }
-}
-
-/// `path(t)` is what is written inside `$t(..)` for target t.
-pub fn ref_entries(name: &str, r: Refk, t: &str, u: &str, tag: &str) -> Vec<(String, Val)> {
-    let one = |v: Val| vec![(name.to_string(), v)];
-    match r {
-        Refk::Whole => one(s(vec![fk(t)])),
-        Refk::Mid => one(s(vec![text(&format!("[{tag}<]")), fk(t), text(&format!("[>{tag}]"))])),
-        Refk::InComp => one(s(vec![comp("i", vec![fk(t), var("z")])])),
-        Refk::ArgStr => one(s(vec![fk_args(t, vec![("x", FkArg::Str(vec![text(&format!("[arg.{tag}]"))]))])])),
-        Refk::ArgNum => one(s(vec![fk_args(t, vec![("x", FkArg::Int(-5))])])),
-        Refk::ArgBool => one(s(vec![fk_args(t, vec![("x", FkArg::Bool(true))])])),
-        Refk::ArgRename => one(s(vec![fk_args(t, vec![("x", FkArg::Str(vec![text("<"), var("y"), text(">")]))])])),
-        Refk::ArgFk => one(s(vec![fk_args(t, vec![("x", FkArg::Str(vec![text("("), fk(u), text(")")]))])])),
-        Refk::CountLit => one(s(vec![fk_args(t, vec![("count", FkArg::UInt(1))])])),
-        Refk::CountLit0 => one(s(vec![fk_args(t, vec![("count", FkArg::UInt(0)), ("x", FkArg::Str(vec![text("X")]))])])),
-        Refk::CountVar => one(s(vec![fk_args(t, vec![("count", FkArg::Str(vec![text(" "), var("n"), text(" ")]))])])),
-        Refk::Unknown => one(s(vec![fk_args(t, vec![("nope", FkArg::Str(vec![text("discarded")]))])])),
-        Refk::InRange => one(Val::Range(RangeDecl {
-            ty: Some("u8".into()),
-            branches: vec![rbranch(s(vec![text(&format!("[{tag}.r0]")), fk(t)]), vec![CountSpec::UInt(0)]), rbranch(s(vec![text(&format!("[{tag}.rfb]")), var("count")]), vec![])],
-        })),
-        Refk::InPlural => vec![
-            (format!("{name}_one"), s(vec![text(&format!("[{tag}.pone]")), fk(t)])),
-            (format!("{name}_other"), s(vec![text(&format!("[{tag}.pother]")), var("count")])),
-        ],
-        Refk::Two => one(s(vec![fk(t), text(" & "), fk(u)])),
-    }
-}
-
-const NAMES: [&str; 4] = ["a", "b", "c", "d"];
-
-/// A chain n0 -> n1 -> .. -> leaf with names assigned by `perm`.
-pub fn chain_entries(refs: &[Refk], leaf: Leaf, perm: &[usize], loc: &str, ns_of: &dyn Fn(usize) -> Option<&'static str>) -> Vec<(usize, Vec<(String, Val)>)> {
-    let n = refs.len() + 1;
-    let name = |i: usize| NAMES[perm[i]];
-    let path = |i: usize| match ns_of(i) {
-        Some(ns) => format!("{ns}:{}", name(i)),
-        None => name(i).to_string(),
-    };
-    let mut out = vec![];
-    for (i, r) in refs.iter().enumerate() {
-        out.push((i, ref_entries(name(i), *r, &path(i + 1), &path(n - 1), &format!("{loc}.{}", name(i)))));
-    }
-    out.push((n - 1, leaf_entries(name(n - 1), leaf, &format!("{loc}.{}", name(n - 1)))));
-    out
-}
 
 fn single_locale_project(entries: Vec<(usize, Vec<(String, Val)>)>) -> Project {
     let mut p = Project::new(Config::simple("en", &["en"]));
